@@ -649,7 +649,8 @@ func altairDetails(ctx context.Context, log zerolog.Logger, specProvider eth2cli
 	// Fetch the altair fork epoch from the fork schedule.
 	var altairForkEpoch phase0.Epoch
 	if handlingAltair {
-		altairForkEpoch, err := fetchAltairForkEpoch(ctx, specProvider)
+		var err error
+		altairForkEpoch, err = fetchAltairForkEpoch(ctx, specProvider)
 		if err != nil {
 			// Not handling altair after all.
 			handlingAltair = false
